@@ -191,7 +191,8 @@ def module_collisions():
         G.add_message(shared, "Label", [G.F("text", 1, T.TYPE_STRING)])
         common = G.new_file("acme/lab/v1/common.proto", "acme.lab.v1", deps=G.STD_DEPS + ["acme/shared/v1/common.proto"])
         # (the API's own common.proto uses a type of the other package's common.proto: that module is not "itself")
-        G.add_message(common, "Token", [G.F("value", 1, T.TYPE_STRING), G.F("label", 2, T.TYPE_MESSAGE, type_name=".acme.shared.v1.Label")])
+        # (only in the second variant - otherwise GetShelfRequest would reach both modules through Token and there would be no collision "across two messages")
+        G.add_message(common, "Token", [G.F("value", 1, T.TYPE_STRING)] + ([G.F("label", 2, T.TYPE_MESSAGE, type_name=".acme.shared.v1.Label")] if both_in_one else []))
         lib = G.new_file("acme/lab/v1/library.proto", "acme.lab.v1", deps=G.STD_DEPS + ["acme/lab/v1/common.proto", "acme/shared/v1/common.proto"])
         G.add_message(lib, "GetShelfRequest", [G.F("name", 1, T.TYPE_STRING), G.F("token", 2, T.TYPE_MESSAGE, type_name=".acme.lab.v1.Token")] +
                       ([G.F("label", 3, T.TYPE_MESSAGE, type_name=".acme.shared.v1.Label")] if both_in_one else []))
